@@ -520,3 +520,95 @@ Proof.
   intros I Ew e He. destruct (iT s I e He) as [H|(w0 & Hw0 & _ & Hf)]; [left; exact H|].
   rewrite Ew in Hw0. inversion Hw0; subst. right; exact Hf.
 Qed.
+
+(** * C08: a failed (rolled back) transaction restores exactly the state its begin left *)
+Lemma filter_all_true {A} (f : A -> bool) l : (forall x, In x l -> f x = true) -> filter f l = l.
+Proof.
+  induction l as [|x l IH]; intros H; [reflexivity|]. simpl. rewrite (H x (or_introl eq_refl)). f_equal.
+  apply IH. intros y Hy. apply H. right; exact Hy.
+Qed.
+
+Definition tree_label (l : label) : bool := match l with LFree _ | LAlloc _ => true | _ => false end.
+
+Record same_base (s0 s1 : pg) (w1 : wtx) : Prop := {
+  sb_pages : g_pages s1 = g_pages s0;
+  sb_cur : g_cur s1 = g_cur s0;
+  sb_mark : g_mark s1 = g_mark s0;
+  sb_readers : g_readers s1 = g_readers s0;
+  sb_hist : g_hist s1 = g_hist s0;
+  sb_w : g_w s1 = Some w1 /\ w_id w1 = g_cur s0 + 1;
+  sb_free : forall x, In x (g_free s0) <-> In x (g_free s1) \/ (In x (w_alloc w1) /\ x < g_mark s0);
+  sb_pend : exists extra, g_pend s1 = g_pend s0 ++ extra /\ (forall e, In e extra -> e_tx e = w_id w1)
+}.
+
+Lemma same_base_step s0 s1 w1 l s2 :
+  Inv s1 -> same_base s0 s1 w1 -> tree_label l = true -> pstep s1 l = Some s2 ->
+  exists w2, same_base s0 s2 w2.
+Proof.
+  intros I SB TL H. destruct SB as [P C M R Hh [Ew Eid] F [extra [Ep Ex]]].
+  destruct l; try discriminate; simpl in H; rewrite Ew in H.
+  - (* free *)
+    destruct (memN p (g_pages s1) && negb (memN p (w_freed w1))); [|discriminate]. inv_some H.
+    eexists. constructor; simpl; auto.
+    exists (extra ++ [(w_id w1, p, lookupN p (g_atx s1))]). split.
+    + rewrite Ep, <- app_assoc. reflexivity.
+    + intros e He. apply in_app_iff in He. destruct He as [He|[<-|[]]]; [auto | reflexivity].
+  - (* alloc *)
+    destruct (memN p (g_free s1)) eqn:G.
+    + apply memN_in in G. inv_some H. eexists. constructor; simpl; auto.
+      * intros x. rewrite F. rewrite in_minus. simpl.
+        pose proof (iF1 s1 I p G) as Hp. rewrite M in Hp.
+        destruct (N.eq_dec x p) as [->|Hne]; [tauto|]. intuition; subst; tauto.
+      * exists extra. split; [exact Ep | exact Ex].
+    + destruct (N.eqb_spec p (w_mark w1)) as [->|]; [|discriminate]. inv_some H. unfold upd_w.
+      eexists. constructor; simpl; auto.
+      * intros x. rewrite F.
+        destruct (iW s1 I w1 Ew) as (_ & Wm & _). rewrite M in Wm.
+        split.
+        -- intros [A|[A B]]; [left; exact A | right; split; [right; exact A | exact B]].
+        -- intros [A|[[Eq|A] B]]; [left; exact A | subst; lia | right; split; assumption].
+      * exists extra. split; [exact Ep | exact Ex].
+Qed.
+
+Lemma same_base_run ls : forall s0 s1 w1 s2,
+  Inv s1 -> same_base s0 s1 w1 -> forallb tree_label ls = true -> prun s1 ls = Some s2 ->
+  exists w2, same_base s0 s2 w2 /\ Inv s2.
+Proof.
+  induction ls as [|l ls IH]; intros s0 s1 w1 s2 I SB TL H; simpl in *.
+  - inversion H; subst. eauto.
+  - apply andb_true_iff in TL. destruct TL as [T1 T2].
+    destruct (pstep s1 l) as [s1'|] eqn:E; [|discriminate].
+    destruct (same_base_step s0 s1 w1 l s1' I SB T1 E) as [w' SB'].
+    apply (IH s0 s1' w' s2); [eapply inv_step; eauto | exact SB' | exact T2 | exact H].
+Qed.
+
+Theorem rollback_restores s0 w0 ls s1 s2 :
+  Inv s0 -> g_w s0 = Some w0 -> w_freed w0 = [] -> w_alloc w0 = [] ->
+  forallb tree_label ls = true -> prun s0 ls = Some s1 -> pstep s1 LRollback = Some s2 ->
+  g_pages s2 = g_pages s0 /\ g_cur s2 = g_cur s0 /\ g_mark s2 = g_mark s0 /\ g_readers s2 = g_readers s0 /\
+  g_w s2 = None /\ g_pend s2 = g_pend s0 /\ (forall x, In x (g_free s2) <-> In x (g_free s0)).
+Proof.
+  intros I Ew Hf Ha TL Hr Hb.
+  assert (SB0 : same_base s0 s0 w0).
+  { constructor; auto.
+    - split; [exact Ew | exact (proj1 (iW s0 I w0 Ew))].
+    - intros x. rewrite Ha. simpl. tauto.
+    - exists []. rewrite app_nil_r. split; [reflexivity | intros e []]. }
+  destruct (same_base_run ls s0 s0 w0 s1 I SB0 TL Hr) as (w1 & SB & I1).
+  destruct SB as [P C M R Hh [Ew1 Eid] F [extra [Ep Ex]]].
+  simpl in Hb. rewrite Ew1 in Hb. inv_some Hb. simpl. repeat split; auto.
+  - (* pending: the writer's entries disappear, the others are untouched *)
+    rewrite Ep, filter_app.
+    assert (E1 : filter (fun e => negb (e_tx e =? w_id w1)) (g_pend s0) = g_pend s0).
+    { apply filter_all_true. intros e He. apply negb_true_iff, N.eqb_neq.
+      destruct (iT s0 I e He) as [Hle|(w & Hw & Et & Hfw)]; [lia|].
+      rewrite Ew in Hw. inversion Hw; subst w. rewrite Hf in Hfw. destruct Hfw. }
+    assert (E2 : filter (fun e => negb (e_tx e =? w_id w1)) extra = []).
+    { clear -Ex. induction extra as [|e ex IHe]; [reflexivity|]. simpl.
+      rewrite (Ex e (or_introl eq_refl)), N.eqb_refl. simpl. apply IHe. intros e' He'. apply Ex. right; exact He'. }
+    rewrite E1, E2, app_nil_r. reflexivity.
+  - intros Hx. apply in_app_iff in Hx. apply F. destruct Hx as [Hx|Hx]; [left; exact Hx|].
+    apply filter_In in Hx. destruct Hx as [Hx Hlt]. apply N.ltb_lt in Hlt. rewrite M in Hlt. right; tauto.
+  - intros Hx. apply in_app_iff. apply F in Hx. destruct Hx as [Hx|[Hx Hlt]]; [left; exact Hx|].
+    right. apply filter_In. split; [exact Hx | apply N.ltb_lt; rewrite M; exact Hlt].
+Qed.
